@@ -319,8 +319,11 @@ class StarSet(object):
         :param threshold: threshold for determining equality with symmetry
         :param originstates: include origin states in generate?
         """
-        if Nshells == getattr(self, 'Nshells', -1): return
+        # nothing to do only if BOTH the range and the origin-state request are unchanged (an object that does not
+        # record its flag -- copy of an older object, loaded from HDF5, result of diffgenerate -- is simply regenerated)
+        if Nshells == getattr(self, 'Nshells', -1) and originstates == getattr(self, 'originstates', None): return
         self.Nshells = Nshells
+        self.originstates = originstates
         if Nshells > 0:
             stateset = set(self.jumplist)
         else:
@@ -456,6 +459,7 @@ class StarSet(object):
         newStarSet.chem = self.chem
         if not empty:
             newStarSet.Nshells = self.Nshells
+            newStarSet.originstates = getattr(self, 'originstates', None)
             newStarSet.stars = copy.deepcopy(self.stars)
             newStarSet.states = self.states.copy()
             newStarSet.Nstars = self.Nstars
@@ -488,6 +492,7 @@ class StarSet(object):
         if other.Nshells < 1: return self
         if self.Nshells < 1:
             self.Nshells = other.Nshells
+            self.originstates = getattr(other, 'originstates', None)
             self.stars = copy.deepcopy(other.stars)
             self.states = other.states.copy()
             self.Nstars = other.Nstars
@@ -682,6 +687,7 @@ class StarSet(object):
         """
         if S1.Nshells < 1 or S2.Nshells < 1: raise ValueError('Need to initialize stars')
         self.Nshells = S1.Nshells + S2.Nshells  # an estimate...
+        self.originstates = None  # not a generated set any more: a later generate() must rebuild
         stateset = set([])
         # self.states = []
         for s1 in S1.states:
